@@ -238,6 +238,19 @@ def extra_checks(tier, scratch):
             if s[0] == 'loop':
                 ctx.asserts += 1
                 if s[3][1] != ('var', s[1]): ctx.violations.append(dict(kind='assert', what='loop entry requests its own index as composition number', detail=astx.term_str(s[3][1]), inputs=[], native=None))
+        # option lines ("# dim = ", "# compositions = ", ...) are honoured wherever they stand: the scan over the lines of the data file
+        # that assigns the option variables visits every line (no break / continue / return inside it)
+        scans = [t for t in astx.find(tree, lambda x: x[0] == 'forrange' and x[1] == ('var', 'data'))
+                 if astx.find(t[2], lambda y: y[0] == 'expr' and y[1][0] == 'bin' and y[1][1] == '=' and y[1][2] in (('var', 'dim'), ('var', 'compositions'), ('var', 'grain_compositions'), ('var', 'n_grains'), ('var', 'convert_spherical')))]
+        ctx.asserts += 1
+        if len(scans) != 1: ctx.violations.append(dict(kind='assert', what='one loop over all lines of the data file reads the "#" option lines', detail='found %d such loops' % len(scans), inputs=[], native=None))
+        else:
+            opts = set(y[1][2][1] for y in astx.find(scans[0][2], lambda y: y[0] == 'expr' and y[1][0] == 'bin' and y[1][1] == '='))
+            early = astx.find(scans[0][2], lambda y: y[0] in ('break', 'continue', 'return'))
+            ctx.asserts += 2
+            if early: ctx.violations.append(dict(kind='assert', what='option lines are read from every line of the data file (the scan never stops early)', detail='%d early exit(s) in the option scan' % len(early), inputs=[], native=None))
+            if opts != {'dim', 'compositions', 'grain_compositions', 'n_grains', 'convert_spherical'}:
+                ctx.violations.append(dict(kind='assert', what='the option scan sets dim, compositions, grain compositions, number of grains and convert spherical', detail=str(sorted(opts)), inputs=[], native=None))
         for dim in (2, 3):
             nh, nr = check_dim(ctx, tree, dim, plist)
             r['samples'].append(dict(obligation='C17.cols', dim=dim, header_generators=nh, row_generators=nr))
